@@ -129,7 +129,12 @@ const WORDS: &[&str] = &["a", "b", "A", "ab", "Ab", "c", "\u{3a3}\u{391}\u{3a3}"
     "\u{3c3}\u{3b1}\u{3c2}", "\u{dc}ber", "\u{fc}ber", "\u{c9}COLE", "\u{e9}cole", "i\u{307}x", "\u{41f}\u{420}\u{418}", "\u{43f}\u{440}\u{438}",
     // "words" made of white space that is not ASCII white space (the function splits at ASCII white space only): for
     // str::trim / char::is_whitespace such a text is blank, for the word matching it is a word like any other
-    "\u{3000}", "\u{a0}", "\u{2003}\u{2003}", "\u{85}", "\u{b}", "\u{2028}", "x\u{a0}y"];
+    "\u{3000}", "\u{a0}", "\u{2003}\u{2003}", "\u{85}", "\u{b}", "\u{2028}", "x\u{a0}y",
+    // titlecase letters (neither upper case nor lower case for char::is_uppercase / is_lowercase, but str::to_lowercase
+    // changes them) next to their lower-case forms, in texts without any upper-case letter
+    "\u{1c5}ungla", "\u{1c6}ungla", "\u{1c8}", "\u{1c9}", "\u{1f88}x", "\u{1f80}x", "je", "velika"];
+const N_TITLE: usize = 8;
+const N_WSWORDS: usize = 7;
 const SEPS: &[&str] = &[" ", "  ", "\t", "\n", " \r\n", "\u{c}"];
 
 fn text(ctx: &mut Ctx, max_words: usize, vocab: (usize, usize)) -> String {
@@ -152,7 +157,7 @@ fn text(ctx: &mut Ctx, max_words: usize, vocab: (usize, usize)) -> String {
 
 pub fn run_c18(ctx: &mut Ctx) {
     if ctx.first_shard() {
-        for (a, b) in [("", ""), ("a", ""), ("", "a"), ("a b c", "b x c"), ("a a a", "a a"), ("A b", "a B"), ("a\u{b}b", "a b"), ("a\u{a0}b", "a b"), ("\u{3000}", "x \u{3000} y"), ("x \u{a0} y", "\u{a0}"), ("\u{2003}", "\u{2003}"), (" \u{85} ", "a \u{85}"), ("\u{b}", "a \u{b} \u{b}"), ("\u{dc}ber den Wolken", "\u{fc}ber den wolken"), ("\u{3a3}\u{391}\u{3a3} x", "\u{3c3}\u{3b1}\u{3c2} X")] {
+        for (a, b) in [("", ""), ("a", ""), ("", "a"), ("a b c", "b x c"), ("a a a", "a a"), ("A b", "a B"), ("a\u{b}b", "a b"), ("a\u{a0}b", "a b"), ("\u{1c5}ungla je velika", "\u{1c6}ungla je velika"), ("\u{1c8} \u{1f88}x", "\u{1c9} \u{1f80}x"), ("\u{3000}", "x \u{3000} y"), ("x \u{a0} y", "\u{a0}"), ("\u{2003}", "\u{2003}"), (" \u{85} ", "a \u{85}"), ("\u{b}", "a \u{b} \u{b}"), ("\u{dc}ber den Wolken", "\u{fc}ber den wolken"), ("\u{3a3}\u{391}\u{3a3} x", "\u{3c3}\u{3b1}\u{3c2} X")] {
             for ic in [false, true] {
                 ctx.case("matchw", &req_matchw(a, b, ic));
             }
@@ -188,7 +193,8 @@ pub fn run_c18(ctx: &mut Ctx) {
     }
     let n = ctx.budget(4000, 200000);
     for i in 0..n {
-        let vocab = [(0, 3), (0, 6), (0, WORDS.len()), (6, WORDS.len()), (WORDS.len() - 7, WORDS.len()), (0, 3), (0, WORDS.len()), (WORDS.len() - 9, WORDS.len())][(i % 8) as usize];
+        let (t0, w0) = (WORDS.len() - N_TITLE, WORDS.len() - N_TITLE - N_WSWORDS);
+        let vocab = [(0, 3), (0, 6), (0, WORDS.len()), (6, WORDS.len()), (w0, t0), (0, 3), (t0, WORDS.len()), (w0 - 2, t0), (t0, WORDS.len())][(i % 9) as usize];
         let long = i % 400 == 9;
         let max_words: u64 = if long { 150 } else if i % 10 == 0 { 12 } else { 6 };
         let a = text(ctx, max_words as usize, vocab);
